@@ -369,6 +369,8 @@ pub fn a_wide_layout(cfg: &Cfg) -> Vec<Op> {
         c(DecSet(vec![1047])),
         c(DecRst(vec![1047])),
         c(Ht),
+        c(Tbc(None)),
+        c(Hts),
     ]
 }
 
@@ -386,6 +388,41 @@ fn wide_layout_part<'a>(tier: Tier, sys: &'a SysA<'a>) -> Part<'a, SysA<'a>> {
         },
         alphabet: &a_wide_layout,
         depth: tier.pick(4, 5),
+        seconds: tier.pick(20.0, 2400.0),
+        validated: true,
+        nontrivial: Some("states_round_tripped"),
+    }
+}
+
+/// the core of what the dump has to re-create in the right ORDER (pen, saved pen, origin mode,
+/// margins, a cursor parked outside the region by a restore) over a small alphabet, deeper
+pub fn a_pen_origin_core(cfg: &Cfg) -> Vec<Op> {
+    let rows = cfg.rows as u32;
+    vec![
+        c(sgr1(41)),
+        c(sgr1(0)),
+        c(DecSet(vec![6])),
+        c(Decsc),
+        c(Decrc),
+        c(Decstbm(Some(2), Some(rows))),
+        c(Decstbm(Some(1), Some(rows - 1))),
+        c(Cup(None, None)),
+        t("a"),
+        c(DecSet(vec![1049])),
+    ]
+}
+
+fn conts_pen_origin_core(cfg: &Cfg) -> Vec<String> {
+    a_pen_origin_core(cfg).into_iter().map(|o| o.text).collect()
+}
+
+fn pen_origin_core_part<'a>(tier: Tier, sys: &'a SysA<'a>) -> Part<'a, SysA<'a>> {
+    Part {
+        name: "pen-origin-save-core-deep",
+        sys,
+        cfgs: cfgs(&[(2, 3)], &[None]),
+        alphabet: &a_pen_origin_core,
+        depth: tier.pick(6, 8),
         seconds: tier.pick(20.0, 2400.0),
         validated: true,
         nontrivial: Some("states_round_tripped"),
@@ -637,6 +674,8 @@ pub fn run(ctx: &Ctx) -> Report {
     run_part(ctx, &mut rep, &layout_part(ctx.tier, &sc));
     let sw = SysA { sys: make(&ctx.known), conts: &conts_wide_layout };
     run_part(ctx, &mut rep, &wide_layout_part(ctx.tier, &sw));
+    let sp = SysA { sys: make(&ctx.known), conts: &conts_pen_origin_core };
+    run_part(ctx, &mut rep, &pen_origin_core_part(ctx.tier, &sp));
     let hits: Vec<(String, u64, String)> = rep.known_hits.iter().map(|(k, (n, w))| (k.clone(), *n, w.clone())).collect();
     rep.known_hits.clear();
     for (id, n, w) in hits {
@@ -688,6 +727,10 @@ pub fn replay(ctx: &Ctx, v: &Value) -> bool {
         "sparse-tall-screen" => {
             let sc = SysA { sys: make(&ctx.known), conts: &conts_layout };
             replay_part(ctx, &layout_part(tier, &sc), v)
+        }
+        "pen-origin-save-core-deep" => {
+            let sp = SysA { sys: make(&ctx.known), conts: &conts_pen_origin_core };
+            replay_part(ctx, &pen_origin_core_part(tier, &sp), v)
         }
         "wide-screen-layouts" => {
             let sw = SysA { sys: make(&ctx.known), conts: &conts_wide_layout };
